@@ -154,6 +154,24 @@ class Runner:
                 raise RuntimeError("callback failed")
             if out == "stop":
                 raise StopIteration
+        # user callbacks come in every callable shape: plain function, lambda, functools.partial,
+        # callable object, bound method (chosen deterministically from the item)
+        kind = (len(ops) * 3 + {"ok": 0, "exc": 1, "stop": 2}[out] + sum(len(o) for o in ops)) % 5
+        if kind == 1:
+            return lambda: action()
+        if kind == 2:
+            import functools
+            return functools.partial(lambda f: f(), action)
+        if kind == 3:
+            class _Callable:
+                def __call__(self_inner):
+                    return action()
+            return _Callable()
+        if kind == 4:
+            class _Holder:
+                def method(self_inner):
+                    return action()
+            return _Holder().method
         return action
 
     # -- ops ------------------------------------------------------------------------------------
